@@ -33,6 +33,7 @@ type specSig struct {
 	heaps  []string // heap array names read (in order)
 	rows   []specRow // rows of slice parameters read
 	ret    types.Type
+	multi  bool // abstract function whose result has several leaves: one uninterpreted function per leaf
 }
 
 type specErr struct{ msg string }
@@ -900,6 +901,17 @@ func (env *specEnv) callSpec(sf *SpecFunc, args []Expr) Val {
 		actual = append(actual, e.heapArr(h, e.heapSort[h]))
 	}
 	e.st = save
+	if sig.multi {
+		out := Val{T: sig.ret}
+		for _, l := range e.sorter.leaves(sig.ret) {
+			t := quoteSym("sf_" + sf.Name + l.suffix)
+			if len(actual) > 0 {
+				t = "(" + t + " " + strings.Join(actual, " ") + ")"
+			}
+			out.L = append(out.L, t)
+		}
+		return out
+	}
 	t := quoteSym("sf_" + sf.Name)
 	if len(actual) > 0 {
 		t = "(" + t + " " + strings.Join(actual, " ") + ")"
@@ -935,7 +947,11 @@ func (e *FnEnc) defineSpec(sf *SpecFunc) *specSig {
 	}
 	sig.ret = env.resolveType(sf.Ret)
 	rl := e.sorter.leaves(sig.ret)
-	if len(rl) != 1 {
+	_, isAbstractBody := sf.Body.(*EIdent)
+	if isAbstractBody {
+		isAbstractBody = sf.Body.(*EIdent).Name == "abstract"
+	}
+	if len(rl) != 1 && !(isAbstractBody && len(rl) > 1) {
 		sfail("spec %s: result must be scalar", sf.Name)
 	}
 	// abstract spec function: uninterpreted function of its arguments and of the contents of its
@@ -961,6 +977,15 @@ func (e *FnEnc) defineSpec(sf *SpecFunc) *specSig {
 		}
 		for _, r := range sig.rows {
 			sorts = append(sorts, r.sort)
+		}
+		if len(rl) > 1 {
+			// a result of several leaves (an interface value: dynamic type and payload): one function per leaf
+			for _, l := range rl {
+				e.specDefs = append(e.specDefs, fmt.Sprintf("(declare-fun %s (%s) %s)", quoteSym("sf_"+sf.Name+l.suffix), strings.Join(sorts, " "), l.sort))
+			}
+			sig.multi = true
+			e.specDone[key] = sig
+			return sig
 		}
 		e.specDefs = append(e.specDefs, fmt.Sprintf("(declare-fun %s (%s) %s)", quoteSym("sf_"+sf.Name), strings.Join(sorts, " "), rl[0].sort))
 		// the result is a value of its Go type (e.g. an int is within the int range)
